@@ -1422,7 +1422,7 @@ func (fc *funcContext) internalize(s *expression, t types.Type) *expression {
 		case isInteger(u) && !is64Bit(u):
 			return fc.fixNumber(fc.formatExpr("$parseInt(%s)", s), u)
 		case isFloat(u):
-			return fc.formatExpr("$parseFloat(%s)", s)
+			return fc.fixNumber(fc.formatExpr("$parseFloat(%s)", s), u)
 		}
 	}
 	return fc.formatExpr("$internalize(%s, %s)", s, fc.typeName(t))
